@@ -311,7 +311,7 @@ pub fn usable_plain_len(plan: &Plan, built: &Built, cut: usize, unauth: bool) ->
 
 /// For each file, the number of content bytes lying in the first `usable` bytes of the block
 /// stream (reconstructed from the plan: FileStart 17+name, FileContent 17+data, EndOfFile 41).
-fn expected_recovery(plan: &Plan, _built: &Built, usable: usize) -> Vec<usize> {
+pub fn expected_recovery(plan: &Plan, _built: &Built, usable: usize) -> Vec<usize> {
     let n = plan.names.len();
     let mut got = vec![0usize; n];
     let mut pos = 0usize;
